@@ -5,6 +5,7 @@ package c09
 //	c09_corr.go    correspondence: custom (un)marshallers and struct encoding vs the Lean models
 //	c09_struct.go  correspondence: tag-driven encoding of reflection-populated model values vs Encode.render over Gen.Types
 //	c09_load.go    correspondence: loader.Transform on real renderings vs Decode.load over Gen.Types
+//	c09_rt.go      correspondence + observed theorem: decode(encode v) on the real code vs the model, scope measured
 //	c09_oracle.go  direct oracle on the real code (load → render → reload → compare → render again)
 //	c09_pool.go    frozen attribute pools the oracle's documents are built from
 
@@ -18,6 +19,8 @@ func runC09(ctx *core.Ctx) {
 	runC09Struct(ctx)
 	ctx.Wait()
 	runC09Load(ctx)
+	ctx.Wait()
+	runC09RT(ctx)
 	ctx.Wait()
 	c09CovMu.Lock()
 	ctx.Note("cases outside the scope of the Lean models (skipped, by reason): %v", c09Unmodelled)
